@@ -1,6 +1,6 @@
 from pyvc.contract import contract, class_model
 
-class_model("HedSchema", {"_namespace": "Str", "tags": "Opaque"})
+class_model("HedSchema", {"_namespace": "Str", "tags": "Opaque", "valid_prefixes": "Opaque"})
 class_model("TagEntry", {"takes_value_child_entry": "Opt[TagEntry]", "name": "Str"})
 
 # the tag section as an abstract view: case-folded form -> entry.  Trusted: that the loaders register every suffix
